@@ -29,7 +29,7 @@ def prebuild():
 
 
 def oracle(line, evs, meta):
-    return sc.oracle_restart(evs, meta) or sc.oracle_convergence(evs, meta.get("ncomp", 1)) or sc.oracle_states(evs, None) or sc.oracle_data(evs)
+    return sc.oracle_restart(evs, meta) or sc.oracle_convergence(evs, meta.get("ncomp", 1), nat=meta.get("nat")) or sc.oracle_states(evs, None) or sc.oracle_data(evs)
 
 
 def run(chk):
